@@ -83,6 +83,7 @@ def lean_ty(t) -> str:
 	if k == 'arr': return 'Py.Arr'
 	if k == 'sigs': return 'Py.Sigs'
 	if k == 'carr': return 'Py.CArr'
+	if k == 'acc': return 'Py.Acc'
 	if k == 'nd': return 'Py.ND'
 	if k == 'index': return 'Py.Index'
 	if k == 'dtype': return 'Py.DType'
@@ -109,6 +110,7 @@ def default(t) -> str:
 	if k == 'arr': return '(default : Py.Arr)'
 	if k == 'sigs': return '(default : Py.Sigs)'
 	if k == 'carr': return '(default : Py.CArr)'
+	if k == 'acc': return '(default : Py.Acc)'
 	if k == 'nd': return '(default : Py.ND)'
 	if k == 'index': return '(default : Py.Index)'
 	if k == 'dtype': return '(default : Py.DType)'
@@ -181,6 +183,20 @@ FUNCS = [
 	dict(name='index_dtype', file='kmers.py', qual='index_dtype', module='PyKmerWrappers', env=[], params=[('k', INT)], ret=OPT(INT)),
 	dict(name='kmer_to_index', file='kmers.py', qual='kmer_to_index', module='PyKmerWrappers', env=[], params=[('kmer', BYTES)], ret=INT),
 	dict(name='kmer_to_index_rc', file='kmers.py', qual='kmer_to_index_rc', module='PyKmerWrappers', env=[], params=[('kmer', BYTES)], ret=INT),
+	# --- the path from a set of sequences to a signature: KmerMatch.kmer_index, accumulate_kmers, default_accumulator, calc_signature.
+	#     An accumulator is (array or set flavour, k, the indices added so far); its signature() is the sorted duplicate-free list
+	#     (for the array flavour that is C01.accumulators_agree).
+	dict(name='kmer_index', file='kmers.py', qual='KmerMatch.kmer_index', module='PyCalcSig', env=[],
+	     params=[('self_kmerspec', KSPEC), ('self_seq', BYTES), ('self_pos', INT), ('self_reverse', BOOL)], ret=INT,
+	     self_attrs={'kmerspec': ('self_kmerspec', KSPEC), 'seq': ('self_seq', BYTES), 'pos': ('self_pos', INT), 'reverse': ('self_reverse', BOOL)},
+	     self_exprs={'KS': 's.self_kmerspec', 'POS': 's.self_pos', 'REV': 's.self_reverse'}, self_calls={'kmer_indices': ('kmer_indices', ['KS', 'POS', 'REV'])}),
+	dict(name='accumulate_kmers', file='sigs/calc.py', qual='accumulate_kmers', module='PyCalcSig', env=[],
+	     params=[('accumulator', ('acc',)), ('kmerspec', KSPEC), ('seq', BYTES)], ret=('acc',), returns_param='accumulator',
+	     obj_calls={'kmer_index': ('kmer_index', ['s.kmerspec', 's.seq', '({self}).1', '({self}).2'])}),
+	dict(name='default_accumulator', file='sigs/calc.py', qual='default_accumulator', module='PyCalcSig', env=[], params=[('k', INT)], ret=('acc',),
+	     calls={'SetAccumulator': ('(Py.Acc.new false {0})', ('acc',), []), 'ArrayAccumulator': ('(Py.Acc.new true {0})', ('acc',), [('(decide ({0} < 0))', 'ValueError')])}),
+	dict(name='calc_signature', file='sigs/calc.py', qual='calc_signature', module='PyCalcSig', env=[],
+	     params=[('kmerspec', KSPEC), ('seqs', LIST(BYTES)), ('accumulator', OPT(('acc',)))], ret=LIST(INT)),
 	dict(name='strip_extensions', file='cli/common.py', qual='strip_extensions', module='PyLabels', env=[],
 	     params=[('filename', STR), ('extensions', LIST(STR))], ret=STR),
 	dict(name='strip_seq_file_ext', file='cli/common.py', qual='strip_seq_file_ext', module='PyLabels', env=[], params=[('filename', STR)], ret=STR),
@@ -654,7 +670,7 @@ class Fn:
 			ix = self.coerce(i, ('index',), 'index of a signature collection')
 			return E(f'((Py.Sigs.get? {o.lean} {ix.lean}).getD default)', ('sigs',),
 			         o.raises + ix.raises + [(f'(Py.Sigs.get? {o.lean} {ix.lean}).isNone', 'IndexError')])
-		if o.ty[0] == 'list' and not isinstance(n.slice, ast.Slice):
+		if (o.ty[0] == 'list' or o.ty == BYTES) and not isinstance(n.slice, ast.Slice):
 			i0 = self.expr(n.slice)
 			if i0.ty == TUP(INT, INT):       # xs[slice_object]
 				return E(f'(Py.slice {o.lean} (some ({i0.lean}).1) (some ({i0.lean}).2))', o.ty, o.raises + i0.raises)
@@ -828,6 +844,11 @@ class Fn:
 				if c.raises: raise Untranslatable(f'{name}() of a condition that can raise')
 				body = re.sub(rf'\bs\.{x}\b', f'x_{x}', c.lean)
 				return E(f'(({xs.lean}).{name} (fun x_{x} => {body}))', BOOL, xs.raises)
+			if name == 'isinstance' and len(args) == 2 and isinstance(args[1], ast.Name) and args[1].id == 'SEQ_TYPES':
+				a = self.value(args[0])
+				if a.ty == LIST(BYTES): return E('false', BOOL, a.raises)     # a list of sequences is not itself a sequence
+				if a.ty == BYTES: return E('true', BOOL, a.raises)
+				raise Untranslatable(f'isinstance(…, SEQ_TYPES) of {a.ty}')
 			if name == 'isinstance' and len(args) == 2 and isinstance(args[1], ast.Name) and args[1].id in ('SignatureArray', 'AbstractSignatureArray'):
 				a = self.value(args[0])
 				if a.ty != ('sigs',): raise Untranslatable(f'isinstance of {a.ty}')
@@ -981,7 +1002,7 @@ class Fn:
 			o = self.value(f.value.value)
 			if o.ty != ('sigs',): raise Untranslatable(f'.bounds of {o.ty}')
 			return E(f'(Py.Sigs.bounds {o.lean})', LIST(INT), o.raises)
-		if self.self_call(n) is not None:
+		if self.self_call(n) is not None or (isinstance(f, ast.Attribute) and self.obj_call(n) is not None):
 			if self.nohoist: raise Untranslatable(f'call of {ast.unparse(f)} in a conditionally evaluated operand')
 			call, ty, raises = self.call_known(n)
 			self.nv += 1
@@ -1024,6 +1045,8 @@ class Fn:
 				e = E(f'(GambitV.sliceIndices ({nn.lean}).toNat ({o.lean}).1 ({o.lean}).2.1 ({o.lean}).2.2)', TUP(INT, INT, INT),
 				      o.raises + nn.raises + [(f'(({o.lean}).2.2 == some 0)', 'ValueError')])
 				return e
+			if o.ty == ('acc',) and m == 'signature' and not args and not kw:
+				return E(f'(Py.Acc.signature {o.lean})', LIST(INT), o.raises)
 			if o.ty == ('arr',) and m == 'view' and len(args) == 1 and not kw:
 				a = self.value(args[0])
 				if a.ty != ('dtype',): raise Untranslatable('view() with something other than a dtype')
@@ -1096,6 +1119,14 @@ class Fn:
 			vn = f'w{self.nv}'
 			return (self.guards(raises, ind) + f'{ind}let {vn} ← Py.call {call}\n'
 			        + self.assign(base, E(puts(vn), ('nd',)), ind))
+		if self.is_known_call(v) and isinstance(v.func, ast.Name) and self.known[v.func.id].get('returns_param') is not None:
+			d = self.known[v.func.id]
+			pos = [n for n, _ in d['params']].index(d['returns_param'])
+			tgt = v.args[pos] if pos < len(v.args) else None
+			if not (isinstance(tgt, ast.Name) and tgt.id in self.vars): raise Untranslatable(f'{v.func.id} mutates an argument that is not a local name')
+			call, ty, raises = self.call_known(v)
+			e = self.coerce(E('v', ty), self.vars[tgt.id], f'object mutated by {v.func.id}')
+			return self.guards(raises, ind) + f'{ind}let v ← Py.call {call}\n{ind}let s : St := {{ s with {tgt.id} := {e.lean} }}\n'
 		if self.is_known_call(v):
 			call, ty, raises = self.call_known(v)      # a translated function called for its checks only
 			return self.guards(raises, ind) + f'{ind}let _ ← Py.call {call}\n'
@@ -1108,6 +1139,14 @@ class Fn:
 			if i.ty != INT or x.ty != LIST(INT): raise Untranslatable('np.copyto argument types')
 			new = E(f'(Py.CArr.putItem s.{name} {i.lean} {x.lean})', ('carr',),
 			        i.raises + x.raises + [(f'(Py.CArr.putItemBad s.{name} {i.lean} {x.lean})', 'ValueError')])
+			return self.assign(name, new, ind)
+		if (isinstance(v, ast.Call) and isinstance(v.func, ast.Attribute) and v.func.attr == 'add' and len(v.args) == 1 and not v.keywords
+				and isinstance(v.func.value, ast.Name) and self.vars.get(v.func.value.id) in (('acc',), OPT(('acc',)))):
+			name = v.func.value.id
+			cur = self.value(v.func.value)
+			i = self.value(v.args[0])
+			if i.ty != INT: raise Untranslatable('accumulator.add of a non-int')
+			new = E(f'(Py.Acc.add {cur.lean} {i.lean})', ('acc',), cur.raises + i.raises + [(f'(Py.Acc.addBad {cur.lean} {i.lean})', 'IndexError')])
 			return self.assign(name, new, ind)
 		if isinstance(v, ast.Call) and ast.unparse(v.func) == 'np.fill_diagonal' and len(v.args) == 2 and not v.keywords:
 			o = v.args[0]
@@ -1280,7 +1319,14 @@ class Fn:
 		return self.assign(name, e, ind)
 
 	def is_known_call(self, v) -> bool:
-		return isinstance(v, ast.Call) and ((isinstance(v.func, ast.Name) and v.func.id in self.known) or self.self_call(v) is not None)
+		return isinstance(v, ast.Call) and ((isinstance(v.func, ast.Name) and v.func.id in self.known) or self.self_call(v) is not None
+		                                    or self.obj_call(v) is not None)
+
+	def obj_call(self, v):
+		"""x.method() of a local object whose class's method is a translated function: (function, argument templates with {self})"""
+		f = v.func
+		if not (isinstance(f, ast.Attribute) and isinstance(f.value, ast.Name) and f.value.id in self.vars): return None
+		return (self.d.get('obj_calls') or {}).get(f.attr)
 
 	def self_call(self, v):
 		"""self.method(args) / super().method(args) of a class whose methods are translated: (translated function name, leading self arguments)"""
@@ -1295,6 +1341,14 @@ class Fn:
 		return sc
 
 	def call_known(self, v):
+		oc = self.obj_call(v) if isinstance(v.func, ast.Attribute) else None
+		if oc is not None and self.self_call(v) is None:
+			d = self.known[oc[0]]
+			self.calls.add(d['module']); self.callees.add(d['name'])
+			if v.args or v.keywords: raise Untranslatable(f'method call {ast.unparse(v.func)} with arguments')
+			o = self.value(v.func.value)
+			call = f'({d["name"]} ' + ' '.join([en[0] for en in d['env']] + [t.format(self=o.lean) for t in oc[1]]) + ')'
+			return call, d['ret'], list(o.raises)
 		sc = self.self_call(v)
 		if sc is not None:
 			d = self.known[sc[0]]
@@ -1332,6 +1386,12 @@ class Fn:
 		return self.s_Assign(ast.Assign(targets=[st.target], value=st.value, lineno=st.lineno), ind)
 
 	def s_Return(self, st, ind):
+		if isinstance(st.value, ast.IfExp) and (self.is_known_call(st.value.body) or self.is_known_call(st.value.orelse)):
+			node = ast.If(test=st.value.test, body=[ast.Return(value=st.value.body)], orelse=[ast.Return(value=st.value.orelse)])
+			ast.fix_missing_locations(ast.copy_location(node, st))
+			for x in ast.walk(node):
+				if not hasattr(x, 'lineno'): x.lineno = st.lineno
+			return self.stmt(node, ind)
 		if isinstance(st.value, ast.ListComp) and self.d['ret'][0] == 'list':
 			if 'ret__' not in self.vars:
 				self.vars['ret__'] = self.d['ret']; self.order.append('ret__')
@@ -1362,6 +1422,10 @@ class Fn:
 
 	def s_If(self, st, ind):
 		c = self.truth(st.test)
+		if c.lean in ('false', 'true') and not c.raises:
+			# decided by the declared types (isinstance of a parameter whose translation type is fixed): only the live branch exists
+			live = st.body if c.lean == 'true' else st.orelse
+			return ''.join(self.stmt(x, ind) for x in live)
 		saved = set(self.narrow)
 		self.narrow = saved | self.narrowing(st.test, True)
 		a = self.block(st.body, ind + '  ')
@@ -1571,6 +1635,8 @@ class Fn:
 		init = ', '.join(f'{n} := {n}' if n in dict(d['params']) else f'{n} := {default(self.vars[n])}' for n in self.order)
 		if self.gen:
 			fall = 'fun s => .ok s.yielded'
+		elif d.get('returns_param') is not None:
+			fall = f'fun s => .ok s.{d["returns_param"]}'
 		elif d.get('init'):
 			fall = 'fun s => .ok (' + ', '.join(f's.self_{a}' for a in d['init']) + ')'
 		elif ret[0] == 'opt':
